@@ -53,8 +53,8 @@ func main() {
 		runCases(s, keyGen(r, scale(300, 5000)), res)
 	case "filter":
 		s := Suite{Name: "filter", DriverSuite: "filter", Exec: same(filterExec)}
-		res.Rule = "filter.Build on 1..N entries, Contains of every member and of absent keys, implementation vs model fed with the real murmur3 values; non-trivial = every case (distinct key sets)"
-		runCases(s, filterGen(r, scale(60, 600), scale(400, 5000)), res)
+		res.Rule = "filter.Build on 1..N entries (quick: N = 400, thorough: N = 1200 and a few filters of 4800 entries), keys of 0 to 5000 bytes incl. long shared prefixes, Contains of every member and of absent keys (member after miss included), implementation vs model fed with the real murmur3 values; non-trivial = every case (distinct key sets)"
+		runCases(s, filterGen(r, scale(60, 300), scale(400, 1200)), res)
 		filterDims(res, scale(3000, 20000))
 	case "skiplist":
 		s := Suite{Name: "skiplist", DriverSuite: "skiplist", Exec: same(skipExec)}
